@@ -5,6 +5,16 @@ HERE = os.path.dirname(os.path.abspath(__file__))
 BASELINE = "cd /repo && /venv/bin/python -m pytest -ra -q -p no:cacheprovider --timeout=900 --continue-on-collection-errors"
 
 CLAIMED = {
+ "C18": {
+  "text": "Only the partition arithmetic is under contract: IrregularlyPartitionedArray::partitionid_index_at maps every global position to the first partition containing it and the right local index (sentinels for negative / past-the-end positions), start/stop, PartitionedArray::getitem_at wraps and bounds-checks exactly like Python, and the range regularisation it shares with slicing (awkward_regularize_rangeslice == CPython slice adjustment). VirtualArray caches/generators, getitem_range across partitions, repartition and partition.py are NOT covered.",
+  "ref": "DESIGN.md section 5 (C18)",
+  "note": "Trusted: stops_ non-decreasing and non-negative with one entry per partition (class invariant, assumed); callee contracts of length()/getitem_at_nowrap assumed.",
+  "technique": "contract-based deductive verification of the extracted partition methods (VC generator over the clang AST, z3/cvc5)"},
+ "C14": {
+  "text": "Only the buffer layer of the builders is under contract: GrowableBuffer<int64_t>::append/set_length/set_reserved/clear/getitem_at_nowrap extracted from the clang AST and proved for all states: 0 <= length <= reserved always, append stores the datum at the old length inside the (possibly reallocated) buffer and leaves every earlier element unchanged whether or not it reallocates (the snapshot-immutability clause at the only place data can move), for every ArrayBuilderOptions (initial, resize) value. The builder tree (type promotion, option/union/record unification), from_iter and LayoutBuilder are NOT covered.",
+  "ref": "DESIGN.md section 5 (C14)",
+  "note": "Trusted: set_reserved's memcpy/malloc (its contract is assumed at call sites), float growth factor abstract; builder tree rewriting not covered.",
+  "technique": "contract-based deductive verification of the extracted GrowableBuffer methods (VC generator over the clang AST, z3/cvc5)"},
  "C01": {
   "text": "Kernel- and helper-level lemmas of slicing, proved for all inputs: awkward_regularize_rangeslice equals CPython's slice adjustment (PySlice_AdjustIndices) for both step signs and absent bounds; every getitem/carry/jagged/missing kernel is proved equal to its Python definition (lockstep) and memory-safe under its contract, with functional contracts on the carry kernels (output position = start + wrapped index; error iff out of range). The recursion through Content::getitem_next and toslice() is not covered.",
   "ref": 'DESIGN.md section 5 (C01)',
